@@ -118,7 +118,14 @@ func (w *Where) buildIdxSel(index []string, mode byte, perCol map[string][]span)
 				lookup := len(exploded[i]) == len(index)
 				if !lookup {
 					assert.That(encode)
-					c.End = c.Org + ixkey.Sep + ixkey.Max
+					// can't just append to c.Org because trailing empty values
+					// are trimmed from it, e.g. (2, "") is the same as (2)
+					var enc ixkey.Encoder
+					for _, f := range exploded[i] {
+						enc.Add(f.org.val)
+					}
+					enc.Add(ixkey.Max)
+					c.End = enc.String()
 				}
 			}
 		}
